@@ -117,6 +117,8 @@ class Builder(object):
                 kinds += ["decision"]
             if self.g["loop"] and not in_loop:
                 kinds += ["loop"]
+            if self.g["split"] and self.g["join"] and self.g["fork"] and not in_loop and self.budget >= 7:
+                kinds += ["splitjoin"]
         if self.budget <= 1:
             kinds = ["task"]
         kind = self.r.choice(kinds)
@@ -160,6 +162,26 @@ class Builder(object):
                 self.tasks[m]["join"] = "all"
             return head, [self.slot(m)]
         return head, exits
+
+    def b_splitjoin(self, depth, in_loop):
+        """fork -> multi-referenced task (no join: one execution per arriving branch, each on its
+        own route) -> fork with branches of unequal depth -> join.  Every route has to satisfy the
+        join on its own."""
+        head = self.new_task()
+        a, b = self.new_task(), self.new_task()
+        self.tasks[head]["next"].append({"when": self.main_when(), "publish": [], "do": [a, b]})
+        s_ = self.new_task()
+        self.link([self.slot(a), self.slot(b)], s_)
+        self.tasks[s_]["join"] = None
+        x = self.new_task()
+        ys = [self.new_task() for _ in range(self.r.choice([1, 2, 2]))]
+        self.tasks[s_]["next"].append({"when": self.main_when(), "publish": [], "do": [x, ys[0]]})
+        for i in range(1, len(ys)):
+            self.link([self.slot(ys[i - 1])], ys[i])
+        j = self.new_task()
+        self.link([self.slot(x), self.slot(ys[-1])], j)
+        self.tasks[j]["join"] = self.r.choice(["all", "all", 2])
+        return head, [self.slot(j)]
 
     def b_decision(self, depth, in_loop):
         head = self.new_task(in_loop=in_loop)
@@ -210,6 +232,16 @@ class Builder(object):
                     s = self.slot(body[i - 1], when=self.r.choice([None, ["succeeded"]]))
                     self.link([s], t)
             first, last = body[0], body[-1]
+        # optionally the loop also feeds a multi-referenced task outside the cycle (one execution
+        # per arrival and per iteration, each under its own route)
+        if self.g.get("loop_side_split", True) and self.g["split"] and body and self.budget >= 1 and self.r.random() < 0.35:
+            sd = self.new_task("s")
+            srcs = [body[0], body[-1]] if len(body) > 1 else [pre, body[0]]
+            for src in srcs:
+                self.tasks[src]["next"].append({"when": ["succeeded"], "publish": [], "do": [sd]})
+            if self.budget >= 1 and self.r.random() < 0.5:
+                sd2 = self.new_task("s")
+                self.tasks[sd]["next"].append({"when": self.main_when(), "publish": [], "do": [sd2]})
         # entry into the loop resets the counter
         self.tasks[pre]["next"].append({"when": self.main_when(), "publish": [[c, ["lit", 0]]], "do": [first]})
         guard = ["ctx_lt", c, bound]
@@ -313,14 +345,17 @@ class Builder(object):
                             v = r.choice(self.vars)
                         else:
                             v = self.vars[(hash_name(name) + ti + pi) % len(self.vars)]
-                        tr["publish"].append([v, self.pub_value(name, t, ti, pi)])
+                        pv = self.pub_value(name, t, ti, pi)
+                        if [v, pv] not in tr["publish"]:       # the schema wants unique entries
+                            tr["publish"].append([v, pv])
             if g["dict_republish"]:
                 for name in list(self.tasks.keys()):
                     t = self.tasks[name]
                     for ti, tr in enumerate(t["next"]):
                         if "retry" not in tr["do"] and r.random() < 0.5:
                             tr["publish"].append(["dv", ["lit", {"k_" + name: "p:%s.%d.d" % (name, ti)}]])
-                self.extra_vars.append(("dv", {"k_init": "i:dv"}))
+        if g["dict_republish"]:
+            self.extra_vars.append(("dv", {"k_init": "i:dv"}))
         # conditions reading the context
         if g["cond_ctx"]:
             for name in list(self.tasks.keys()):
